@@ -49,7 +49,7 @@ type Type struct {
 	Kind   string  `json:"kind"`
 	Ptr    bool    `json:"ptr,omitempty"` // func-provided struct handed around as *T
 	Fields []Field `json:"fields,omitempty"`
-	Elem   int     `json:"elem,omitempty"` // kind "uslice" (the unnamed type []Elem): index of the element type
+	Elem   int     `json:"elem,omitempty"` // unnamed kinds (uslice []E, uarray [2]E, umap map[string]E, uptr *E, uchan chan E, ustruct struct{ V E }): index of the element type
 	Src    Source  `json:"src"`
 	Dead   bool    `json:"dead,omitempty"` // pruned by the minimiser: not rendered
 }
@@ -107,6 +107,7 @@ type Pkg struct {
 	Anon    []string `json:"anon,omitempty"` // _ imports in injector files
 	NFiles  int      `json:"nfiles"`         // number of injector files
 	CopyFns int      `json:"copyfns,omitempty"`
+	Facade  bool     `json:"facade,omitempty"` // declares nothing but alias variables of other packages' sets: no wire import, no injectors
 }
 
 // Module is a whole workload.
@@ -218,14 +219,21 @@ func Generate(r *rand.Rand, k Knobs) *Module {
 		t.Kind = weighted(r, Kinds, []int{40, 10, 6, 3, 3, 5, 4, 4, 5, 3, 17})
 		t.Src.Home = -1
 		earlier := m.Types
-		// unnamed slice types []Elem (so that variadic providers have something to take)
-		if r.IntN(12) == 0 {
+		// unnamed composite types over an earlier element type: []E (so that variadic providers have
+		// something to take), [2]E, map[string]E, *E, chan E, struct{ V E } — their zero values and
+		// their names in generated code are spelled out by wire, with E's package qualifier
+		if r.IntN(9) == 0 {
+			ukind := weighted(r, []string{"uslice", "uarray", "umap", "uptr", "uchan", "ustruct"}, []int{40, 15, 12, 10, 8, 15})
 			var elems []int
 			for _, e := range earlier {
-				if (e.Kind == "int" || e.Kind == "string" || e.Kind == "struct" && e.Src.Kind != "struct") && e.Pkg <= t.Pkg {
+				okElem := e.Kind == "int" || e.Kind == "string" || e.Kind == "struct" && e.Src.Kind != "struct" && ukind != "uptr"
+				if ukind == "uptr" && e.Src.Kind == "field" {
+					okElem = false // FieldsOf(new(*S), ...) provides *E itself
+				}
+				if okElem && e.Pkg <= t.Pkg {
 					dup := false
 					for _, o := range earlier {
-						if o.Kind == "uslice" && o.Elem == e.Idx {
+						if o.Kind == ukind && o.Elem == e.Idx {
 							dup = true
 						}
 					}
@@ -235,9 +243,9 @@ func Generate(r *rand.Rand, k Knobs) *Module {
 				}
 			}
 			if len(elems) > 0 {
-				t.Kind = "uslice"
+				t.Kind = ukind
 				t.Elem = elems[r.IntN(len(elems))]
-				t.Name = fmt.Sprintf("SliceOf%d", t.Elem)
+				t.Name = fmt.Sprintf("%sOf%d", export(ukind[1:]), t.Elem)
 			}
 		}
 		var concretes []int // func-provided struct types (can be bound, can be field parents)
@@ -287,7 +295,7 @@ func Generate(r *rand.Rand, k Knobs) *Module {
 			if srcKind == "bind" && len(concretes) == 0 {
 				srcKind = "func"
 			}
-		case "uslice":
+		case "uslice", "uarray", "umap", "uptr", "uchan", "ustruct":
 			srcKind = "func"
 		case "func", "chan":
 			srcKind = "func"
@@ -627,6 +635,15 @@ func minInt(a, b int) int {
 	return b
 }
 
+// Unnamed reports whether kind is one of the unnamed composite kinds.
+func Unnamed(kind string) bool {
+	switch kind {
+	case "uslice", "uarray", "umap", "uptr", "uchan", "ustruct":
+		return true
+	}
+	return false
+}
+
 func export(s string) string {
 	if s == "" {
 		return s
@@ -755,6 +772,29 @@ func (m *Module) Mutate(r *rand.Rand, kind string) string {
 		return ""
 	}
 	return ""
+}
+
+// AddFacade appends a package that re-exports provider sets of other packages
+// under its own names (var Storage = dep.Set) and declares nothing else: it
+// never imports the wire package, yet its variables are top-level provider
+// sets that `wire show` / `wire check` have to report.
+func (m *Module) AddFacade(r *rand.Rand) {
+	var cands []int
+	for _, s := range m.Sets {
+		if s.AliasOf == 0 && !s.Dup {
+			cands = append(cands, s.ID)
+		}
+	}
+	if len(cands) == 0 {
+		return
+	}
+	p := &Pkg{Idx: len(m.Pkgs), Path: "fac", Name: "fac", Facade: true}
+	m.Pkgs = append(m.Pkgs, p)
+	n := 1 + r.IntN(2)
+	for i := 0; i < n; i++ {
+		tgt := m.Sets[cands[r.IntN(len(cands))]]
+		m.Sets = append(m.Sets, &Set{ID: len(m.Sets), Pkg: p.Idx, Name: fmt.Sprintf("Fac%dOf%s", i, tgt.Name), Parent: -1, AliasOf: 1 + tgt.ID})
+	}
 }
 
 // AddSharedValue appends a small structure to the module: a wire.Value whose
